@@ -19,6 +19,9 @@ package valid
 //@   ensures [C01 more.uint]   isUintNKind(k) ==> (isMoreThan == ite(incl, rv.uint(tv) > max, rv.uint(tv) >= max))
 //@   ensures [C01 less.float]  isFloatKind(k) && fOK ==> (isLessThan == ite(incl, rv.float(tv) < min, rv.float(tv) <= min))
 //@   ensures [C01 more.float]  isFloatKind(k) && fOK ==> (isMoreThan == ite(incl, rv.float(tv) > max, rv.float(tv) >= max))
+//@   ensures [C02 echo.str]   k == 24 ==> valStr == rv.str(tv)
+//@   ensures [C02 echo.int]   isIntKind(k) ==> valStr == decInt(rv.int(tv))
+//@   ensures [C02 echo.uint]  isUintNKind(k) ==> valStr == decInt(rv.uint(tv))
 //@   ensures [C01 less.slice]  k == 23 ==> (isLessThan == ite(incl, rv.len(tv) < min, rv.len(tv) <= min))
 //@   ensures [C01 more.slice]  k == 23 ==> (isMoreThan == ite(incl, rv.len(tv) > max, rv.len(tv) >= max))
 //@   modifies nothing
@@ -119,6 +122,7 @@ package valid
 //@   ensures [C01 eq.verdict] atoiOk(es) && measureDefined(k) && fits53(n) ==> (isEq <==> measure(tv) == n)
 
 //@ func To
+//@   at call GetJoinValidErrStr#* assert [C02 to.echo] (rv.kind(tv$0) == 24 ==> arg2 == rv.str(tv$0)) && (isIntKind(rv.kind(tv$0)) ==> arg2 == decInt(rv.int(tv$0))) && (isUintNKind(rv.kind(tv$0)) ==> arg2 == decInt(rv.uint(tv$0)))
 //@   at call GetJoinValidErrStr#* assert [C02 C04 to.names] arg0 == objName$0 && arg1 == fieldName$0
 //@   at call GetJoinValidErrStr#* assert [C15 to.msg] ParseValidNameKV.cusMsg(validName) != "" ==> len(others) == 1 && others[0] == ParseValidNameKV.cusMsg(validName)
 //@   requires errBuf != nil && rv.valid(tv) && !rv.ro(tv)
@@ -132,6 +136,7 @@ package valid
 //@   ensures [C01 to.verdict] wf && measureDefined(k) && fits53(lo) && fits53(hi) ==> ((sb.nw(errBuf) > old(sb.nw(errBuf))) <==> (measure(tv) < lo || measure(tv) > hi))
 
 //@ func OTo
+//@   at call GetJoinValidErrStr#* assert [C02 oto.echo] (rv.kind(tv$0) == 24 ==> arg2 == rv.str(tv$0)) && (isIntKind(rv.kind(tv$0)) ==> arg2 == decInt(rv.int(tv$0))) && (isUintNKind(rv.kind(tv$0)) ==> arg2 == decInt(rv.uint(tv$0)))
 //@   at call GetJoinValidErrStr#* assert [C02 C04 oto.names] arg0 == objName$0 && arg1 == fieldName$0
 //@   at call GetJoinValidErrStr#* assert [C15 oto.msg] ParseValidNameKV.cusMsg(validName) != "" ==> len(others) == 1 && others[0] == ParseValidNameKV.cusMsg(validName)
 //@   requires errBuf != nil && rv.valid(tv) && !rv.ro(tv)
@@ -145,6 +150,7 @@ package valid
 //@   ensures [C01 oto.verdict] wf && measureDefined(k) && fits53(lo) && fits53(hi) ==> ((sb.nw(errBuf) > old(sb.nw(errBuf))) <==> (measure(tv) <= lo || measure(tv) >= hi))
 
 //@ func Ge
+//@   at call GetJoinValidErrStr#* assert [C02 ge.echo] (rv.kind(tv$0) == 24 ==> arg2 == rv.str(tv$0)) && (isIntKind(rv.kind(tv$0)) ==> arg2 == decInt(rv.int(tv$0))) && (isUintNKind(rv.kind(tv$0)) ==> arg2 == decInt(rv.uint(tv$0)))
 //@   at call GetJoinValidErrStr#* assert [C02 C04 ge.names] arg0 == objName$0 && arg1 == fieldName$0
 //@   at call GetJoinValidErrStr#* assert [C15 ge.msg] ParseValidNameKV.cusMsg(validName) != "" ==> len(others) == 1 && others[0] == ParseValidNameKV.cusMsg(validName)
 //@   requires errBuf != nil && rv.valid(tv) && !rv.ro(tv)
@@ -154,6 +160,7 @@ package valid
 //@   ensures [C01 ge.verdict] atoiOk(val) && measureDefined(k) && fits53(atoi(val)) ==> ((sb.nw(errBuf) > old(sb.nw(errBuf))) <==> measure(tv) < atoi(val))
 
 //@ func Le
+//@   at call GetJoinValidErrStr#* assert [C02 le.echo] (rv.kind(tv$0) == 24 ==> arg2 == rv.str(tv$0)) && (isIntKind(rv.kind(tv$0)) ==> arg2 == decInt(rv.int(tv$0))) && (isUintNKind(rv.kind(tv$0)) ==> arg2 == decInt(rv.uint(tv$0)))
 //@   at call GetJoinValidErrStr#* assert [C02 C04 le.names] arg0 == objName$0 && arg1 == fieldName$0
 //@   at call GetJoinValidErrStr#* assert [C15 le.msg] ParseValidNameKV.cusMsg(validName) != "" ==> len(others) == 1 && others[0] == ParseValidNameKV.cusMsg(validName)
 //@   requires errBuf != nil && rv.valid(tv) && !rv.ro(tv)
@@ -163,6 +170,7 @@ package valid
 //@   ensures [C01 le.verdict] atoiOk(val) && measureDefined(k) && fits53(atoi(val)) ==> ((sb.nw(errBuf) > old(sb.nw(errBuf))) <==> measure(tv) > atoi(val))
 
 //@ func Gt
+//@   at call GetJoinValidErrStr#* assert [C02 gt.echo] (rv.kind(tv$0) == 24 ==> arg2 == rv.str(tv$0)) && (isIntKind(rv.kind(tv$0)) ==> arg2 == decInt(rv.int(tv$0))) && (isUintNKind(rv.kind(tv$0)) ==> arg2 == decInt(rv.uint(tv$0)))
 //@   at call GetJoinValidErrStr#* assert [C02 C04 gt.names] arg0 == objName$0 && arg1 == fieldName$0
 //@   at call GetJoinValidErrStr#* assert [C15 gt.msg] ParseValidNameKV.cusMsg(validName) != "" ==> len(others) == 1 && others[0] == ParseValidNameKV.cusMsg(validName)
 //@   requires errBuf != nil && rv.valid(tv) && !rv.ro(tv)
@@ -172,6 +180,7 @@ package valid
 //@   ensures [C01 gt.verdict] atoiOk(val) && measureDefined(k) && fits53(atoi(val)) ==> ((sb.nw(errBuf) > old(sb.nw(errBuf))) <==> measure(tv) <= atoi(val))
 
 //@ func Lt
+//@   at call GetJoinValidErrStr#* assert [C02 lt.echo] (rv.kind(tv$0) == 24 ==> arg2 == rv.str(tv$0)) && (isIntKind(rv.kind(tv$0)) ==> arg2 == decInt(rv.int(tv$0))) && (isUintNKind(rv.kind(tv$0)) ==> arg2 == decInt(rv.uint(tv$0)))
 //@   at call GetJoinValidErrStr#* assert [C02 C04 lt.names] arg0 == objName$0 && arg1 == fieldName$0
 //@   at call GetJoinValidErrStr#* assert [C15 lt.msg] ParseValidNameKV.cusMsg(validName) != "" ==> len(others) == 1 && others[0] == ParseValidNameKV.cusMsg(validName)
 //@   requires errBuf != nil && rv.valid(tv) && !rv.ro(tv)
@@ -346,6 +355,7 @@ package valid
 //@   ensures [C13 isstr.err] err != nil ==> safeErr(err)
 
 //@ func Phone
+//@   at call GetJoinValidErrStr#* assert [C02 phone.echo] rv.kind(tv$0) == 24 ==> arg2 == rv.str(tv$0)
 //@   at call GetJoinValidErrStr#* assert [C02 C04 phone.names] arg0 == objName$0 && arg1 == fieldName$0
 //@   at call GetJoinValidErrStr#* assert [C15 phone.msg] ParseValidNameKV.cusMsg(validName) != "" ==> len(others) == 1 && others[0] == ParseValidNameKV.cusMsg(validName)
 //@   requires errBuf != nil && rv.valid(tv) && !rv.ro(tv)
@@ -354,6 +364,7 @@ package valid
 //@   ensures [C02 phone.once] sb.nw(errBuf) <= old(sb.nw(errBuf)) + 1 && prefixof(old(sb.content(errBuf)), sb.content(errBuf))
 
 //@ func Email
+//@   at call GetJoinValidErrStr#* assert [C02 email.echo] rv.kind(tv$0) == 24 ==> arg2 == rv.str(tv$0)
 //@   at call GetJoinValidErrStr#* assert [C02 C04 email.names] arg0 == objName$0 && arg1 == fieldName$0
 //@   at call GetJoinValidErrStr#* assert [C15 email.msg] ParseValidNameKV.cusMsg(validName) != "" ==> len(others) == 1 && others[0] == ParseValidNameKV.cusMsg(validName)
 //@   requires errBuf != nil && rv.valid(tv) && !rv.ro(tv)
@@ -362,6 +373,7 @@ package valid
 //@   ensures [C02 email.once] sb.nw(errBuf) <= old(sb.nw(errBuf)) + 1 && prefixof(old(sb.content(errBuf)), sb.content(errBuf))
 
 //@ func IDCard
+//@   at call GetJoinValidErrStr#* assert [C02 idcard.echo] rv.kind(tv$0) == 24 ==> arg2 == rv.str(tv$0)
 //@   at call GetJoinValidErrStr#* assert [C02 C04 idcard.names] arg0 == objName$0 && arg1 == fieldName$0
 //@   at call GetJoinValidErrStr#* assert [C15 idcard.msg] ParseValidNameKV.cusMsg(validName) != "" ==> len(others) == 1 && others[0] == ParseValidNameKV.cusMsg(validName)
 //@   requires errBuf != nil && rv.valid(tv) && !rv.ro(tv)
@@ -370,6 +382,7 @@ package valid
 //@   ensures [C02 idcard.once] sb.nw(errBuf) <= old(sb.nw(errBuf)) + 1 && prefixof(old(sb.content(errBuf)), sb.content(errBuf))
 
 //@ func Ip
+//@   at call GetJoinValidErrStr#* assert [C02 ip.echo] rv.kind(tv$0) == 24 ==> arg2 == rv.str(tv$0)
 //@   at call GetJoinValidErrStr#* assert [C02 C04 ip.names] arg0 == objName$0 && arg1 == fieldName$0
 //@   at call GetJoinValidErrStr#* assert [C15 ip.msg] ParseValidNameKV.cusMsg(validName) != "" ==> len(others) == 1 && others[0] == ParseValidNameKV.cusMsg(validName)
 //@   requires errBuf != nil && rv.valid(tv) && !rv.ro(tv)
@@ -378,6 +391,7 @@ package valid
 //@   ensures [C02 ip.once] sb.nw(errBuf) <= old(sb.nw(errBuf)) + 1 && prefixof(old(sb.content(errBuf)), sb.content(errBuf))
 
 //@ func Ipv4
+//@   at call GetJoinValidErrStr#* assert [C02 ipv4.echo] rv.kind(tv$0) == 24 ==> arg2 == rv.str(tv$0)
 //@   at call GetJoinValidErrStr#* assert [C02 C04 ipv4.names] arg0 == objName$0 && arg1 == fieldName$0
 //@   at call GetJoinValidErrStr#* assert [C15 ipv4.msg] ParseValidNameKV.cusMsg(validName) != "" ==> len(others) == 1 && others[0] == ParseValidNameKV.cusMsg(validName)
 //@   requires errBuf != nil && rv.valid(tv) && !rv.ro(tv)
@@ -386,6 +400,7 @@ package valid
 //@   ensures [C02 ipv4.once] sb.nw(errBuf) <= old(sb.nw(errBuf)) + 1 && prefixof(old(sb.content(errBuf)), sb.content(errBuf))
 
 //@ func Ipv6
+//@   at call GetJoinValidErrStr#* assert [C02 ipv6.echo] rv.kind(tv$0) == 24 ==> arg2 == rv.str(tv$0)
 //@   at call GetJoinValidErrStr#* assert [C02 C04 ipv6.names] arg0 == objName$0 && arg1 == fieldName$0
 //@   at call GetJoinValidErrStr#* assert [C15 ipv6.msg] ParseValidNameKV.cusMsg(validName) != "" ==> len(others) == 1 && others[0] == ParseValidNameKV.cusMsg(validName)
 //@   requires errBuf != nil && rv.valid(tv) && !rv.ro(tv)
@@ -394,6 +409,7 @@ package valid
 //@   ensures [C02 ipv6.once] sb.nw(errBuf) <= old(sb.nw(errBuf)) + 1 && prefixof(old(sb.content(errBuf)), sb.content(errBuf))
 
 //@ func Year
+//@   at call GetJoinValidErrStr#* assert [C02 year.echo] rv.kind(tv$0) == 24 ==> arg2 == rv.str(tv$0)
 //@   at call GetJoinValidErrStr#* assert [C02 C04 year.names] arg0 == objName$0 && arg1 == fieldName$0
 //@   at call GetJoinValidErrStr#* assert [C15 year.msg] ParseValidNameKV.cusMsg(validName) != "" ==> len(others) == 1 && others[0] == ParseValidNameKV.cusMsg(validName)
 //@   requires errBuf != nil && rv.valid(tv) && !rv.ro(tv)
@@ -402,6 +418,7 @@ package valid
 //@   ensures [C02 year.once] sb.nw(errBuf) <= old(sb.nw(errBuf)) + 1 && prefixof(old(sb.content(errBuf)), sb.content(errBuf))
 
 //@ func Prefix
+//@   at call GetJoinValidErrStr#* assert [C02 prefix.echo] rv.kind(tv$0) == 24 ==> arg2 == rv.str(tv$0)
 //@   at call GetJoinValidErrStr#* assert [C02 C04 prefix.names] arg0 == objName$0 && arg1 == fieldName$0
 //@   at call GetJoinValidErrStr#* assert [C15 prefix.msg] ParseValidNameKV.cusMsg(validName) != "" ==> len(others) == 1 && others[0] == ParseValidNameKV.cusMsg(validName)
 //@   requires errBuf != nil && rv.valid(tv) && !rv.ro(tv)
@@ -410,6 +427,7 @@ package valid
 //@   ensures [C02 prefix.once] sb.nw(errBuf) <= old(sb.nw(errBuf)) + 1 && prefixof(old(sb.content(errBuf)), sb.content(errBuf))
 
 //@ func Suffix
+//@   at call GetJoinValidErrStr#* assert [C02 suffix.echo] rv.kind(tv$0) == 24 ==> arg2 == rv.str(tv$0)
 //@   at call GetJoinValidErrStr#* assert [C02 C04 suffix.names] arg0 == objName$0 && arg1 == fieldName$0
 //@   at call GetJoinValidErrStr#* assert [C15 suffix.msg] ParseValidNameKV.cusMsg(validName) != "" ==> len(others) == 1 && others[0] == ParseValidNameKV.cusMsg(validName)
 //@   requires errBuf != nil && rv.valid(tv) && !rv.ro(tv)
@@ -442,6 +460,7 @@ package valid
 //@   ensures [C02 json.once] sb.nw(errBuf) <= old(sb.nw(errBuf)) + 1 && prefixof(old(sb.content(errBuf)), sb.content(errBuf))
 
 //@ func Year2Month
+//@   at call GetJoinValidErrStr#* assert [C02 year2month.echo] rv.kind(tv$0) == 24 ==> arg2 == rv.str(tv$0)
 //@   at call GetJoinValidErrStr#* assert [C02 C04 year2month.names] arg0 == objName$0 && arg1 == fieldName$0
 //@   at call GetJoinValidErrStr#* assert [C15 year2month.msg] ParseValidNameKV.cusMsg(validName) != "" ==> len(others) == 1 && others[0] == ParseValidNameKV.cusMsg(validName)
 //@   requires errBuf != nil && rv.valid(tv) && !rv.ro(tv)
@@ -452,6 +471,7 @@ package valid
 //@   ensures [C02 year2month.once] sb.nw(errBuf) <= old(sb.nw(errBuf)) + 1 && prefixof(old(sb.content(errBuf)), sb.content(errBuf))
 
 //@ func Date
+//@   at call GetJoinValidErrStr#* assert [C02 date.echo] rv.kind(tv$0) == 24 ==> arg2 == rv.str(tv$0)
 //@   at call GetJoinValidErrStr#* assert [C02 C04 date.names] arg0 == objName$0 && arg1 == fieldName$0
 //@   at call GetJoinValidErrStr#* assert [C15 date.msg] ParseValidNameKV.cusMsg(validName) != "" ==> len(others) == 1 && others[0] == ParseValidNameKV.cusMsg(validName)
 //@   requires errBuf != nil && rv.valid(tv) && !rv.ro(tv)
@@ -631,6 +651,15 @@ package valid
 //@ spec splitQN(s String, sep Int) Int
 //@ spec splitQ(s String, sep Int, j Int) String
 
+// C14 splitter: the quote state is the parity of single quotes read so far, and a piece is cut at exactly the
+// separators outside quotes. qpar / ncut are new spec functions defined by the two recurrences (conservative definitions).
+//@ spec qpar(s String, i Int) Bool
+//@ spec ncut(s String, sep Int, i Int) Int
+//@ axiom [qpar.zero] forall(s String :: {qpar(s, 0)} !qpar(s, 0))
+//@ axiom [qpar.step] forall(s String, i Int :: {byteAt(s, i)} i >= 0 ==> (qpar(s, i + 1) <==> ite(byteAt(s, i) == 39, !qpar(s, i), qpar(s, i))))
+//@ axiom [ncut.zero] forall(s String, sep Int :: {ncut(s, sep, 0)} ncut(s, sep, 0) == 0)
+//@ axiom [ncut.step] forall(s String, sep Int, i Int :: {byteAt(s, i), ncut(s, sep, i)} i >= 0 ==> ncut(s, sep, i + 1) == ncut(s, sep, i) + ite(byteAt(s, i) == sep && !qpar(s, i), 1, 0))
+
 //@ func ValidNamesSplit
 //@   modifies nothing
 //@   defines [C05 split.names] len(result) == splitQN(s, ite(len(sep) > 0, sep[0], 44)) && forall(j Int :: {result[j]} 0 <= j && j < len(result) ==> result[j] == splitQ(s, ite(len(sep) > 0, sep[0], 44), j))
@@ -638,6 +667,11 @@ package valid
 //@   ensures [C14 split.empty] s == "" ==> result == nil
 //@   loop#0 invariant fresh(sliceptr(res)) && fresh(sliceptr(tmp)) && stack != nil && fresh(stack) && (sliceptr(stack.data) == 0 || fresh(sliceptr(stack.data)))
 //@   loop#0 invariant 0 <= i && l == len(s)
+//@   loop#0 invariant sliceptr(tmp) != sliceptr(stack.data) && allocated(sliceptr(stack.data))
+//@   loop#0 invariant [C14 split.quote] (isParseSingleQuotes <==> qpar(s, i)) && (isParseSingleQuotes ==> len(stack.data) == 1 && stack.data[0] == 39) && (!isParseSingleQuotes ==> len(stack.data) == 0)
+//@   loop#0 invariant [C14 split.cuts] defaultSep != 39 ==> len(res) == ncut(s, defaultSep, i)
+//@   loop#0 invariant i <= l
+//@   ensures [C14 split.count] exists(q Int :: 0 <= q && q < len(s) && s[q] == 39) && ite(len(sep) > 0, sep[0], 44) != 39 ==> ncut(s, ite(len(sep) > 0, sep[0], 44), len(s)) <= len(result) && len(result) <= ncut(s, ite(len(sep) > 0, sep[0], 44), len(s)) + 1
 //@   loop#0 decreases l - i
 
 //@ func NewVStruct
@@ -1112,6 +1146,7 @@ package valid
 // datetime: the value parses under the layout built from the separators in force: the first three comma-separated pieces of
 // the rule's (quote-trimmed) value replace, in order, the date separator "-", the date/time separator " " and the time separator ":"
 //@ func Datetime
+//@   at call GetJoinValidErrStr#* assert [C02 datetime.echo] rv.kind(tv$0) == 24 ==> arg2 == rv.str(tv$0)
 //@   at call GetJoinValidErrStr#* assert [C02 C04 datetime.names] arg0 == objName$0 && arg1 == fieldName$0
 //@   let pv = ParseValidNameKV.value(validName)
 //@   let ptr = trimSet(pv, "'")
